@@ -72,6 +72,15 @@ func probeMain(spec string) {
 					continue
 				}
 				ss = admissibleSizes(w, c, 0)
+			case spec == "shapes":
+				if c.Timing || !c.UnifiedGPU {
+					continue
+				}
+				for _, p := range w.Shapes2D {
+					if w.Adm(p, c) && w.quarantine(p, c) == "" {
+						ss = append(ss, p)
+					}
+				}
 			case spec == "timing1um":
 				if !c.Timing || c.NGPU > 1 || !c.UnifiedMem {
 					continue
